@@ -30,6 +30,10 @@ type Profile struct {
 	ScanHeavy                bool
 	SparseReads              bool // only the reads C02 names: Get, GetAll, RangeScan, PrefixScan with a large limit
 	FixedScores              bool // every sorted-set member always gets the same score
+	GetOnly                  bool     // the only key/value read is Get (also in the observation battery)
+	ScanMaxOff               int      // largest PrefixScan offset generated (default 5)
+	BucketChoice             []string // when set, every history uses ONE bucket drawn from this list
+	CrcZero                  int  // percentage of write transactions whose last record is forged to have the CRC-32 0 (or 1)
 }
 
 var defBuckets = []string{"b1", "b2", "b"}
@@ -146,6 +150,10 @@ func (g *Gen) kvOp(write bool) {
 	if !g.p.ReadAfterWrite && g.wrote[g.skey("kv", b)] {
 		return
 	}
+	if g.p.GetOnly {
+		g.add("get %s %s", hb, g.hpick(g.p.Keys))
+		return
+	}
 	if g.p.SparseReads {
 		switch g.r.Intn(5) {
 		case 0, 1:
@@ -184,7 +192,11 @@ func (g *Gen) kvOp(write bool) {
 	case 4:
 		g.add("pscan %s %s 0 -1", hb, hx([]byte(g.prefix())))
 	case 5:
-		g.add("pscan %s %s %d %d", hb, hx([]byte(g.prefix())), g.r.Range(0, 5), g.r.Range(-1, 5))
+		mo := 5
+		if g.p.ScanMaxOff > 0 {
+			mo = g.p.ScanMaxOff
+		}
+		g.add("pscan %s %s %d %d", hb, hx([]byte(g.prefix())), g.r.Range(0, mo), g.r.Range(-1, 5))
 	case 6:
 		g.add("psscan %s %s %s 0 %d", hb, hx([]byte(g.prefix())), hx([]byte(regexes[g.r.Intn(len(regexes))])), []int{-1, 1, 2, 3}[g.r.Intn(4)])
 	case 7:
@@ -463,7 +475,9 @@ func obsCalls(p Profile) []string {
 	for _, b := range p.Buckets {
 		hb := hx([]byte(b))
 		if p.WKV > 0 {
-			c = append(c, "getall "+hb, "pscan "+hb+" x 0 -1", "range "+hb+" x x7f7f7f")
+			if !p.GetOnly {
+				c = append(c, "getall "+hb, "pscan "+hb+" x 0 -1", "range "+hb+" x x7f7f7f")
+			}
 			for _, k := range p.Keys {
 				c = append(c, "get "+hb+" "+hx([]byte(k)))
 			}
@@ -511,6 +525,9 @@ func genHistory(r *PRNG, p Profile, seg int) []string {
 			}
 			g.anyOp(write)
 		}
+		if !ro && r.Chance(p.CrcZero, 100) {
+			g.add("putcrc %s %s %s 0 1700000000 %d", g.hpick(p.Buckets), g.hpick(p.Keys), g.hpick(p.Vals), r.Intn(5)/4)
+		}
 		if !ro && r.Chance(p.Abort, 100) {
 			g.add("rollback")
 		} else {
@@ -545,6 +562,7 @@ func genHistory(r *PRNG, p Profile, seg int) []string {
 // the observation batteries (for cross-option comparison) and all results.
 func runHistory(st *St, p Profile, open string, body []string) (results []string) {
 	st.run("reset")
+	st.bmCheck = len(p.Modes) == 1 && p.Modes[0] == 2 && len(p.Buckets) == 1 && p.WList+p.WSet+p.WZSet == 0 && p.Oversize == 0 && p.Merge == 0
 	st.run(open)
 	obs := obsCalls(p)
 	merged := false
